@@ -84,9 +84,16 @@ def regen_tlsfacts():
                 return "tlsfacts does not build: " + r.stderr[-400:]
         r = check.run([out, check.REPO, os.path.dirname(TLS_LEAN)])   # honours VERIF_MUTANT_OVERLAY itself
         if r.returncode != 0:
-            if os.path.exists(TLS_LEAN):     # the model must not be checked against stale facts
+            # the model must not be CHECKED against stale facts: the check is broken from here on (check.py reads FACTS_ERROR:
+            # no obligation counts as discharged, the verdict is a violation). For the SEARCH for a concrete failing cell of the
+            # matrix alone, the facts of the pinned tree (tools/tlsfacts/reference/TLS.lean, committed) stand in.
+            ref = os.path.join(src, "reference", "TLS.lean")
+            if os.path.exists(ref):
+                shutil.copyfile(ref, TLS_LEAN)
+            elif os.path.exists(TLS_LEAN):
                 os.remove(TLS_LEAN)
-            return "tlsfacts cannot translate the current tree: " + r.stderr.strip()[-400:]
+            return ("tlsfacts cannot translate the current tree (the search for a failing input below ran with the reference facts "
+                    "of the pinned tree): " + r.stderr.strip()[-400:])
     return ""
 
 
@@ -100,8 +107,6 @@ def build_harness():
         ov = check.write_overlay()         # includes VERIF_MUTANT_OVERLAY; the verif hook files are not needed (no -tags verif)
         out = os.path.join(check.BIN, "harness-tls")
         r = check.run(["go", "build", "-overlay", ov, "-o", out, "./cmd/harness-tls"], cwd=hd, env=check.GOENV, timeout=1800)
-        if FACTS_ERROR:
-            return False, FACTS_ERROR, out
         return r.returncode == 0, r.stderr, out
 
 
